@@ -220,9 +220,11 @@ class C18(Property):
         'allclose on nested lists, on arrays of more than one dimension and with a list-valued atol: not modelled (numbers and 1-d arrays in '
         'every broadcast combination, flat lists and list-vs-number are modelled: allcloseB / allcloseList, theorem allclose_broadcast_spec); '
         'the control flow of its array branch is hand-modelled behind the text guard allclose_array_branch_guard',
-        'float rounding itself: no_warning_under_rounding proves that a net charge below 9e-15*sum(b|z|) draws no warning; that double-precision '
-        'evaluation of <= 8 products and sums stays below that bound is argued in the docstring and exercised by the decimal-neutral stream, not proved',
-        'values of the physical constants: read from the installed quantities, not derived',
+        'float rounding: no_warning_for_rounded_test proves (standard model, every operation incl. those of the neutrality test rounded, '
+        'u <= 2^-53, <= 8 ions, integer charges) that a paper-neutral composition never triggers the warning; that IEEE doubles satisfy the '
+        'standard model (no overflow / underflow / subnormals) is assumed',
+        'values of the physical constants: constants_are_codata_2006 pins them to the printed CODATA-2006 decimals; that these are the right '
+        'physical values is outside the model',
     )
     anchors = (('chempy/electrolytes.py', 'ionic_strength'), ('chempy/units.py', 'allclose'),
                ('chempy/electrolytes.py', 'limiting_activity_product'), ('chempy/electrolytes.py', 'extended_activity_product'),
